@@ -194,6 +194,8 @@ module Z :
 
   val even : z -> bool
 
+  val odd : z -> bool
+
   val log2 : z -> z
 
   val ggcd : z -> z -> z * (z * z)
@@ -831,6 +833,32 @@ val axis_geom : z -> z -> z * z
 val center_search : nat -> z list -> z -> z -> (z * z) list option
 
 val center_geom : z list -> z -> (z * z) list option
+
+val qfloor : q -> z
+
+val zq0 : z -> q
+
+val spline_start : z -> q -> z
+
+val bspline : z -> q -> q
+
+val spline_weights : z -> q -> q list
+
+val qtrunc : q -> z
+
+val map_coordinate : z -> z -> q -> q option
+
+val edge_index : z -> z -> z
+
+val qsum0 : q list -> q
+
+val interp1 : z -> z -> q list -> q -> q
+
+val shift1 : z -> z -> q list -> q -> q list
+
+val zoom_factor : z -> z -> q
+
+val zoom1 : z -> z -> q list -> z -> q list
 
 val gbernsen_px : q -> q -> q -> q -> q -> bool
 
